@@ -401,6 +401,14 @@ impl Exec {
     }
 
     fn h(&self, t: &[&str], i: usize) -> Result<NodeId, E> {
+        // `g<k>`: not an id the harness kept, but the one the arena itself reports for the node stored at
+        // position k (1-based) right now: `get_node_id(&as_slice()[k-1])` (also for removed slots)
+        if let Some(k) = t.get(i).and_then(|x| x.strip_prefix('g')) {
+            let k: usize = k.parse().map_err(|_| E::BadCmd)?;
+            let ar = &self.cur.arena;
+            let n = k.checked_sub(1).and_then(|j| ar.as_slice().get(j)).ok_or(E::BadHandle)?;
+            return ar.get_node_id(n).ok_or(E::BadHandle);
+        }
         let k: usize = num(t, i)?;
         self.cur.issued.get(k).copied().ok_or(E::BadHandle)
     }
